@@ -227,6 +227,14 @@ def fixed_corpus():
         (e2, 'jump', (f * g,), 'corpus:jump(f*g)'),
         (e2, 'avg', (f * g,), 'corpus:avg(f*g)'),
         (e2, 'jump', (c * f * g * h,), 'corpus:jump(c*f*g*h)'),
+        # a factored sum in one slot and a scalar factor in the other (seeded change C08-8 distributed over the sum
+        # and lost the other argument's scalar factor)
+        (e2, 'dot', (f * (F + G), g * H), 'corpus:dot(f*(F+G),g*H)'),
+        (e2, 'dot', (g * H, f * (F + G)), 'corpus:dot(g*H,f*(F+G))'),
+        (e2, 'dot', (c * (C.grad(f) + f * F), f * G), 'corpus:dot(c*(grad f+f*F),f*G)'),
+        (e2, 'inner', (f * (F + G), g * H), 'corpus:inner(f*(F+G),g*H)'),
+        (e2, 'cross', (f * (F + G), g * H), 'corpus:cross(f*(F+G),g*H)'),
+        (e2, 'dot', (f * (F + G), g * (H + F)), 'corpus:dot(f*(F+G),g*(H+F))'),
         # integer powers under the interface operators (seeded change C02-8: [f**n] = n{f}**(n-1)[f] holds for n = 2 only)
         (e2, 'jump', (f ** 3,), 'corpus:jump(f**3)'),
         (e2, 'jump', (c * f ** 3 + g,), 'corpus:jump(c*f**3+g)'),
